@@ -113,10 +113,14 @@ func (c *VirtualTable) BestIndex(input *sqlite.IndexInfoInput) (*sqlite.IndexInf
 		return nil, toSqlite(err)
 	}
 	used := make([]*sqlite.ConstraintUsage, len(indexIn))
+	argv := 0
 	for i := range indexOut.Used {
 		if indexOut.Used[i] {
+			// argvIndex values must be consecutive from 1 (the used constraints
+			// need not be the first ones); Filter reads them in this order
+			argv++
 			used[i] = &sqlite.ConstraintUsage{
-				ArgvIndex: i + 1,
+				ArgvIndex: argv,
 				//Omit: true, // no known cases where this doesn't work, but...
 			}
 		}
